@@ -141,6 +141,11 @@ def _items_traced(arm, sink_name, F=None, owner=None):
                         for d, c in hirq.calls_in(a["body"]):
                             if last(d) == sink_name or (sink_name == "CloneItem" and d.endswith("::CloneItem")):
                                 return True
+                            # the hand-over may sit in a one-line helper (`push_clone_item(item)`)
+                            g = F.fns.get(d) if F is not None else None
+                            if g is not None and g["crate"] == "garnish_lang_simple_data" and g["kind"] != "Closure" and g.get("hir") and _sink_params(
+                                    F, g, lambda dd: last(dd) == sink_name or (sink_name == "CloneItem" and dd.endswith("::CloneItem"))):
+                                return True
     return False
 
 
